@@ -185,6 +185,11 @@ func warmup(t *testing.T, prop, tier string) {
 	old := os.Getenv("VERIF_AVOID")
 	os.Setenv("VERIF_AVOID", "")
 	runOne(t, prop, 0x5eed, tier, nil, false)
+	if prop == "C12" {
+		// C12 picks its exporter family from the seed; the HTTP-server family goes through mtail.New and
+		// net/http, which have one-time effects of their own: warm that path up as well (0x5ef1 % 6 == 5)
+		runOne(t, prop, 0x5ef1, tier, nil, false)
+	}
 	os.Setenv("VERIF_AVOID", old)
 }
 
